@@ -30,7 +30,7 @@ REQUEST_COROS = {"_request_pause_coro", "_abort_coro", "_stop_coro", "_halt_coro
 
 class Scenario:
     def __init__(self, I, plan_msgs, env=(), post_pause=("resume", "abort", "stop", "halt"), max_requests=None, handles=True,
-                 can_raise=True, engine_kw=None, max_inflight=1, max_depth=2, second_call=None):
+                 can_raise=True, engine_kw=None, max_inflight=1, max_depth=2, second_call=None, max_runs=2):
         self.max_depth = max_depth
         self.second_call = second_call
         self.returns_result = bool((engine_kw or {}).get("call_returns_result"))
@@ -49,6 +49,7 @@ class Scenario:
         self.release = None             # the suspender's condition (asyncio.Event set by the environment)
         eng.ghost["key"] = self.ghost_key = {}
         self.loop.env_menu = self.env_menu
+        self.loop.on_outcome_lost = lambda task, tok: eng.event("outcome-lost", getattr(getattr(task, "woken_by", None), "msg", None), tok)
 
         def custom(I_, a, k):
             c = w.choose(["ok", "raise"], "custom outcome")
@@ -77,7 +78,9 @@ class Scenario:
             return f.facade
         call_method(I, self.re, "register_command", "custom", native(custom))
         call_method(I, self.re, "register_command", "custom_async", native(custom_async))
-        self.plan = Plan(eng, "plan", lambda p: [(m, ALPHABET[m]) for m in plan_msgs], handles=handles, can_raise=can_raise)
+        # A-RUNS: a plan opens at most `max_runs` runs per scenario (the ledger of opened runs is ghost state of C13)
+        self.plan = Plan(eng, "plan", lambda p: [(m, ALPHABET[m]) for m in plan_msgs if not (m == "open_run" and len(eng.bundlers) >= max_runs)],
+                         handles=handles, can_raise=can_raise)
         uncacheable = set(I.getattr(self.re, "_UNCACHEABLE_COMMANDS"))
         eng.replay_alphabet = lambda p: [(m, ALPHABET[m]) for m in plan_msgs if ALPHABET[m]().command not in uncacheable]
 
@@ -150,14 +153,23 @@ class Scenario:
     def complete(self, f, ok):
         w = self.w
         f.fired = True
+        # the completion counts only if it is delivered: a wait the engine has cancelled in the meantime never sees it
         if ok:
             v = token(w, "resp")
-            self.eng.event("dev-complete", f, v)
-            self.loop.call_soon(lambda: None if f.done() else f.set_result(v), label="dev-complete")
+
+            def deliver():
+                if not f.done():
+                    self.eng.event("dev-complete", f, v)
+                    f.set_result(v)
+            self.loop.call_soon(deliver, label="dev-complete")
         else:
             e = Obj(BUILTIN_CLASSES["ValueError"], {"args": ("device error",), "__cause__": None}, label=w.fresh("dev_error"))
-            self.eng.event("dev-fail", f, e)
-            self.loop.call_soon(lambda: None if f.done() else f.set_exception(e), label="dev-fail")
+
+            def deliver():
+                if not f.done():
+                    self.eng.event("dev-fail", f, e)
+                    f.set_exception(e)
+            self.loop.call_soon(deliver, label="dev-fail")
 
     # ------------------------------------------------------------------ main thread
     def run(self, on_return=None):
